@@ -490,6 +490,15 @@ func (s *Server) cmdEvalUnified(scriptIsSha bool, msg *Message) (res resp.Value,
 			"DEADLINE": luaDeadline,
 			"EVAL_CMD": lua.LString(msg.Command()),
 		})
+	// Clear them again on every way out, including a compile error or an
+	// unknown digest: the interpreter goes back to the pool.
+	defer luaSetRawGlobals(
+		luaState, map[string]lua.LValue{
+			"KEYS":     lua.LNil,
+			"ARGV":     lua.LNil,
+			"DEADLINE": lua.LNil,
+			"EVAL_CMD": lua.LNil,
+		})
 
 	compiled, ok := s.luascripts.Get(shaSum)
 	var fn *lua.LFunction
@@ -513,13 +522,6 @@ func (s *Server) cmdEvalUnified(scriptIsSha bool, msg *Message) (res resp.Value,
 		s.luascripts.Put(shaSum, fn.Proto)
 	}
 	luaState.Push(fn)
-	defer luaSetRawGlobals(
-		luaState, map[string]lua.LValue{
-			"KEYS":     lua.LNil,
-			"ARGV":     lua.LNil,
-			"DEADLINE": lua.LNil,
-			"EVAL_CMD": lua.LNil,
-		})
 	if err := luaState.PCall(0, 1, nil); err != nil {
 		if strings.Contains(err.Error(), "context deadline exceeded") {
 			msg.Deadline.Check()
